@@ -92,9 +92,12 @@ reg("C16",
               lambda rr: mon_content_valid(rr)],
     extra=lambda seed, tier, flavours: merge(
         LG.leg_resumed_writer(flavours if tier == "thorough" else flavours[:1]),
-        LG.leg_writer_faults(flavours[0], tier)),
+        LG.leg_writer_faults(flavours[0], tier),
+        LG.leg_skeleton(P.gen_rewrite_same_programs(), flavours[0])),
     nontrivial=lambda rr: has(rr, ("write", "write_hash", "wcommit"), ("ok",)),
-    rule="(plus: a streamed writer whose write is cut short / fails and whose caller carries on - real short writes under "
+    rule="(plus: the same bytes stored twice through every entry point, 0 B .. 70 kB, under strace: the system-call skeleton "
+         "of the second write equals the model's - nothing opens, truncates or writes the stored copy; "
+         "plus: a streamed writer whose write is cut short / fails and whose caller carries on - real short writes under "
          "a file-size limit, injected EINTR/EIO/ENOSPC - must commit the digest of the acknowledged bytes, one copy) as C02; the returned integrity is compared with hashlib's digest; plus histories storing the SAME bytes under "
          "2-5 algorithms through mixed entry points: each address is the asked algorithm's digest whatever the cache holds, "
          "all copies read back, and remove_hash of one algorithm's copy leaves the others present and readable; plus the "
